@@ -22,6 +22,7 @@ RULE = (
     "{1-D, 2-D C / Fortran order, with extra coordinate, integer dtype for both or one coordinate} x dyadic scale/offset frames; in each case every node of the quarter-unit lattice over the "
     "region plus one block on every side is labelled and compared with exact rational block edges (edge points: either neighbour; "
     "outside points: clamped per axis). Non-trivial: at least two blocks and one point strictly inside some block."
+    " Added axes: Fortran and integer forms, points 1e-3 ... 1e-9 block widths beside every internal edge (guard band 64 ulp), degenerate inferred regions, frames 2^-30 and (2^-10, 2^20), numpy-array arguments, 120 000 ... 240 000 blocks, staggered 2-D grids."
 )
 ASSUMPTIONS = ["lattice and block edges are rational; float evaluation of a strict-inside test cannot flip because a lattice "
                "point is either exactly on an edge or at least 1/48 of a unit away from it"]
